@@ -444,6 +444,26 @@ func c09Opaque(b *c09Built) bool {
 		return c09Opaque(b.kids[0])
 	}
 	t := b.typ
+	if strings.HasSuffix(t, ".multiRowGroup") {
+		if b.node.Op == "multi" {
+			// a plain concatenation is read through its concatenated column chunks when the rows
+			// of every member are their column chunks (parquet.MultiRowGroup otherwise returns a
+			// row-reading wrapper of another dynamic type)
+			for _, k := range b.kids {
+				if c09Opaque(k) {
+					return true
+				}
+			}
+			return false
+		}
+		// a merge that handed its only non-empty input through
+		for _, k := range b.kids {
+			if strings.HasSuffix(k.typ, ".multiRowGroup") {
+				return c09Opaque(k)
+			}
+		}
+		return true
+	}
 	return !(strings.HasSuffix(t, ".Buffer") || strings.HasSuffix(t, ".FileRowGroup") || strings.HasSuffix(t, ".rowRangeRowGroup") || strings.HasSuffix(t, ".rowGroup"))
 }
 
